@@ -208,9 +208,8 @@ def r4(idx, rep):
     for s in K.calls_named(idx, set(sig)):
         fi = s["fi"]
         nm = call_name(s["call"])
-        recv = s["recv"] or ""
-        if not recv.endswith("csvpaths"):
-            continue
+        if s["recv"] is None:
+            continue  # a bare name, not a method call on the coordinator
         allowed = {sig[nm]}
         if nm == "stop_all":
             allowed |= {"AdvanceAll"}  # advance_all() documents that it also stops the serial siblings
